@@ -8,7 +8,7 @@ import (
 	"strings"
 
 	"golang.org/x/tools/go/ast/astutil"
-	"golang.org/x/tools/go/ssa"
+	"ikeverif/checker/xt/ssa"
 )
 
 func (c *Ctx) fileOf(pos token.Pos) *ast.File {
